@@ -215,6 +215,13 @@ def extra_cases(tier, seed, shard, nshards):
                                "cfg": cfg, "proxy": 0, "cut": 0, "consume": n % 2, "cut_mode": "one"}
 
 
+    # the peer goes away at every byte of a chunked request (2 chunks, extension, trailers)
+    trunc = ("POST /one HTTP/1.1\r\nHost: a\r\nTransfer-Encoding: chunked\r\n\r\n5\r\nhello\r\n6;x=y\r\n world\r\n3\r\nabc\r\n0\r\nX-T: v\r\n\r\n")
+    for cut in range(len(trunc) - 40, len(trunc)):
+        for mode in ("one", "after-every-crlf"):
+            n += 1
+            if n % nshards == shard:
+                yield {"stream": trunc[:cut], "cfg": 0, "proxy": 0, "cut": cut // 2, "cut_mode": mode}
     # a PROXY protocol line is only ever the first line of a connection: in front of a later request it is a malformed request line
     first = ["GET /one HTTP/1.1\r\nHost: a\r\n\r\n", "POST /one HTTP/1.1\r\nHost: a\r\nContent-Length: 3\r\n\r\nabc",
              "POST /one HTTP/1.1\r\nHost: a\r\nTransfer-Encoding: chunked\r\n\r\n3\r\nabc\r\n0\r\n\r\n"]
@@ -307,6 +314,10 @@ def judge(stream, reqs, terminal):
                                      observed={"body": r["body"]}, expected={"prefix_of": ref.body}))
             no_more_allowed = "body-reject"
         elif ref.kind == "body_incomplete":
+            if ref.framing == "chunked" and not ref.in_trailers and r["body_error"] is None:
+                # the peer went away before the terminating chunk: only a chunked reader can (and must) tell the application
+                vio.append(Violation("body-exact", "C01/truncated-chunked-body-handed-over-as-complete",
+                                     observed={"body_len": len(r["body"]), "body_tail": r["body"][-40:]}, expected="an error from wsgi.input"))
             if not ref.body.startswith(r["body"]):
                 vio.append(Violation("body-prefix", "C01/incomplete-body-not-prefix:%s" % ref.framing,
                                      observed={"body": r["body"]}, expected={"prefix_of": ref.body}))
